@@ -43,7 +43,8 @@ def hasHead (p : Program) : Bool := p.nodes.any fun op => match op with | .head 
 
 abbrev Owners := List (String × Shards)
 
-def stepRun (f : Files) (owners : Owners) (injected : Bool) (progText obs : String) : Except String (Files × Owners) := do
+def stepRun (f : Files) (owners : Owners) (injected : Bool) (progText obs : String) (afterFailure : Bool := false) :
+    Except String (Files × Owners) := do
   let (prog, results, readable) := substReadCache f progText
   let (p, names) := ProgParse.parseProgram prog
   let env := evalNodes results p.nodes []
@@ -90,6 +91,10 @@ def stepRun (f : Files) (owners : Owners) (injected : Bool) (progText obs : Stri
   if !injected && !hasHead p then
     -- (iii) the upstream of a cached shard is not executed: call counts of the counted maps
     let dem := demand f p (fun i => (env.getD i default).rows.length)
+    -- after a failed run its remaining tasks may still complete shard files until this run is compiled: such shards
+    -- (absent before, present now) may or may not have been served from the cache
+    let fMax : Files := if afterFailure then f ++ (newFiles.filter fun e => (f.get e.1.1 e.1.2).isNone) else f
+    let demMin := demand fMax p (fun i => (env.getD i default).rows.length)
     let calls := (field obs "calls").splitOn "," |>.filterMap fun t => match t.splitOn ":" with
       | [n, c] => some (n, toNat! c) | _ => none
     for (op, i) in p.nodes.zipIdx do
@@ -99,8 +104,9 @@ def stepRun (f : Files) (owners : Owners) (injected : Bool) (progText obs : Stri
         if (progText.splitOn s!"{nm}=mapc ").length > 1 then
           let src := getRef env results s
           let want := ((dem.getD i []).zipIdx.map fun (b, q) => if b then (src.rows.getD q []).length else 0).sum
+          let wantMin := ((demMin.getD i []).zipIdx.map fun (b, q) => if b then (src.rows.getD q []).length else 0).sum
           let got := ((calls.find? fun c => c.1 == nm).map (·.2)).getD 0
-          if got != want then
+          if got > want || got < wantMin then
             throw s!"{nm} was called {got} times; {want} rows belong to shards that are not served from the cache"
       | _ => pure ()
     -- (iv) every computed shard of a cache node has been written
@@ -113,7 +119,8 @@ def stepRun (f : Files) (owners : Owners) (injected : Bool) (progText obs : Stri
 def run (c obs : String) : String × String × Bool :=
   let ops := ((c.splitOn ";;").drop 1).map fun o => (o.trimAscii).toString
   let outs := obs.splitOn " ## "
-  let rec go (ops outs : List String) (i : Nat) (st : Files × Owners) : String × String × Bool :=
+  let failed (o : String) : Bool := !(o.startsWith "ok |") && !(o.startsWith "done")
+  let rec go (ops outs : List String) (i : Nat) (st : Files × Owners) (af : Bool := false) : String × String × Bool :=
     let (f, ow) := st
     match ops, outs with
     | [], _ => ("", "ok", true)
@@ -121,27 +128,27 @@ def run (c obs : String) : String × String × Bool :=
       let ws := words op
       match ws with
       | "run" :: _ =>
-        match stepRun f ow false (op.drop 4).toString o with
-        | .ok f' => go ops' outs' (i + 1) f'
+        match stepRun f ow false (op.drop 4).toString o af with
+        | .ok f' => go ops' outs' (i + 1) f' (af || failed o)
         | .error e => ("", s!"op {i}: {e}", false)
       | "runx" :: _ =>
-        match stepRun f ow true (op.drop 5).toString o with
-        | .ok f' => go ops' outs' (i + 1) f'
+        match stepRun f ow true (op.drop 5).toString o af with
+        | .ok f' => go ops' outs' (i + 1) f' (af || failed o)
         | .error e => ("", s!"op {i} (a user function fails): {e}", false)
       | "runfailw" :: k :: _ =>
-        match stepRun f ow true (joinWith " " (ws.drop 2)) o with
-        | .ok f' => go ops' outs' (i + 1) f'
+        match stepRun f ow true (joinWith " " (ws.drop 2)) o af with
+        | .ok f' => go ops' outs' (i + 1) f' (af || failed o)
         | .error e => ("", s!"op {i} (writes from file operation {k} on fail): {e}", false)
       | "runfailp" :: k :: _ =>
-        match stepRun f ow true (joinWith " " (ws.drop 2)) o with
-        | .ok f' => go ops' outs' (i + 1) f'
+        match stepRun f ow true (joinWith " " (ws.drop 2)) o af with
+        | .ok f' => go ops' outs' (i + 1) f' (af || failed o)
         | .error e => ("", s!"op {i} (file operations from {k} on fail): {e}", false)
       | "runfail" :: k :: _ =>
-        match stepRun f ow true (joinWith " " (ws.drop 2)) o with
-        | .ok f' => go ops' outs' (i + 1) f'
+        match stepRun f ow true (joinWith " " (ws.drop 2)) o af with
+        | .ok f' => go ops' outs' (i + 1) f' (af || failed o)
         | .error e => ("", s!"op {i} (file operation {k} fails): {e}", false)
       | ["rm", name, q] =>
-        go ops' outs' (i + 1) (f.filter (fun e => e.1 != (name, toNat! q)), ow)
+        go ops' outs' (i + 1) (f.filter (fun e => e.1 != (name, toNat! q)), ow) af
       | _ => ("", s!"bad op {op}", false)
     | _ :: _, [] => ("", s!"op {i} was not run", false)
   go ops outs 0 ([], [])
